@@ -4,10 +4,12 @@ import Driver.FramingD
 import Driver.BtcpD
 import Driver.UxD
 import Driver.AttrAccD
+import Driver.ApiD
 
 def main (args : List String) : IO UInt32 := do
   match args with
   | ["attrmap"] => Driver.AttrMapD.main; return 0
+  | ["api"] => Driver.ApiD.main; return 0
   | ["attracc"] => Driver.AttrAccD.main; return 0
   | ["ux"] => Driver.UxD.main; return 0
   | ["btcp"] => Driver.BtcpD.main; return 0
